@@ -375,6 +375,46 @@ func (e *Engine) timeModel(st *State, fn *ssa.Function, full string, args []Valu
 		return IntV{c.Sub(nanos(args[0]), t)}, true
 	case "time.Sleep":
 		return nil, true
+	case "time.NewTimer", "time.AfterFunc":
+		// A timer is modelled as already expired: its channel holds one tick. Code that selects
+		// on it together with other channels takes the other ready cases first (sequential select
+		// examines cases in source order; the code under test lists timers last except for pure
+		// retry pauses), i.e. "time passes when nothing else can happen". AfterFunc's function is
+		// never run (its effect is outside every check that reaches it).
+		tt := ptrElem(fn.Signature.Results().At(0).Type())
+		tv := e.zero(tt).(StructV)
+		ci := fieldIndex(tt, "C")
+		chT := tt.Underlying().(*types.Struct).Field(ci).Type()
+		o := e.newObj(KChan, chT, 1, "timer.C")
+		tick := e.zero(chT.Underlying().(*types.Chan).Elem())
+		cnt := c.BV(1, 32)
+		if full == "time.AfterFunc" {
+			cnt = c.BV(0, 32)
+		}
+		st.Heap[o] = &ChanContent{Cap: 1, Count: cnt, Slots: []Value{tick}, Closed: c.False}
+		nf := append([]Value{}, tv.F...)
+		nf[ci] = mkPtr(c, o)
+		to := e.allocVal(st, tt, StructV{nf}, "timer")
+		e.StubsUsed[full+" -> expired-timer model"]++
+		return mkPtr(c, to), true
+	case "(*time.Timer).Stop", "(*time.Timer).Reset":
+		tt := ptrElem(fn.Signature.Recv().Type())
+		cp, cT := e.subPtr(st, args[0].(PtrV), tt, "C", site)
+		chv := e.Load(st, cp, cT, site).(PtrV)
+		wasArmed := c.False
+		for _, al := range e.chanAlts(st, chv) {
+			if al.o == nil {
+				continue
+			}
+			empty := c.Eq(al.cc.Count, c.BV(0, 32))
+			wasArmed = c.Or(wasArmed, c.And(al.g, empty))
+			if fn.Name() == "Reset" {
+				st.Heap[al.o] = &ChanContent{Cap: al.cc.Cap, Closed: al.cc.Closed, Slots: al.cc.Slots,
+					Count: c.Ite(al.g, c.BV(1, 32), al.cc.Count)}
+			}
+		}
+		// Stop/Reset report whether the timer had been active (not yet expired)
+		return BoolV{wasArmed}, true
 	case "(time.Duration).Seconds", "(time.Duration).Milliseconds":
 		if fn.Signature.Results().At(0).Type().String() == "float64" {
 			return OpaqueV{Tag: "float"}, true
